@@ -64,6 +64,10 @@ def main():
                     rows = res.py_get_result()
                     if t is None:
                         return dict(reproduced=True, call=call, observed='time axis None', expected=T.tolist())
+                if uses_vol:
+                    vcol = np.asarray(res['volume'], dtype=float) if frame else np.asarray(res.py_get_volume(), dtype=float)
+                    if len(vcol) != len(rows) or not (vcol > 0).all():
+                        return dict(reproduced=True, call=call, observed=dict(rows=len(rows), volume_column=vcol.tolist()[-4:]), expected='one positive volume per reported row (a result cut at division has no rows after it)')
                 if len(t) != len(rows) or (len(t) != len(T) and not uses_vol) or not np.allclose(t, T[:len(t)]):
                     return dict(reproduced=True, call=call, observed=[len(t), len(rows)], expected='%d rows, time axis == timepoints' % len(T))
                 # first row = initial condition with the assignment rules applied
